@@ -49,16 +49,20 @@ static void ep2_mul_gls_imp(ep2_t r, const ep2_t p, const bn_t k) {
 	bn_null(n);
 	bn_null(u);
 	ep2_null(q);
+	for (size_t i = 0; i < 4; i++) {
+		bn_null(_k[i]);
+		for (size_t j = 0; j < (1 << (RLC_WIDTH - 2)); j++) {
+			ep2_null(t[i][j]);
+		}
+	}
 
 	RLC_TRY {
 		bn_new(n);
 		bn_new(u);
 		ep2_new(q);
 		for (size_t i = 0; i < 4; i++) {
-			bn_null(_k[i]);
 			bn_new(_k[i]);
 			for (size_t j = 0; j < (1 << (RLC_WIDTH - 2)); j++) {
-				ep2_null(t[i][j]);
 				ep2_new(t[i][j]);
 			}	
 		}
